@@ -68,6 +68,7 @@ type JobOpts struct {
 	MaxInstrs     int  `json:"max_instrs,omitempty"`
 	LoopFuel      int  `json:"loop_fuel,omitempty"`
 	AllPerms      bool `json:"all_perms,omitempty"`
+	MapOrders     int  `json:"map_orders,omitempty"` // >0: explore only this many (evenly spaced) rotations per map range
 	NoSummary     bool `json:"no_summary,omitempty"`
 	QueryTimeoutS int  `json:"query_timeout_s,omitempty"`
 }
@@ -927,7 +928,32 @@ func (w *Worker) step(st *State, f *Frame, ins ssa.Instruction) {
 		w.next(st, f, x)
 	case *ssa.Call:
 		w.callInstr(st, f, x)
-	case *ssa.Defer, *ssa.RunDefers, *ssa.Go, *ssa.Select, *ssa.Send, *ssa.MakeChan:
+	case *ssa.Defer:
+		// defer of a plain function or closure (no panics to recover: a panic is an obligation that
+		// ends the path): the call is registered with its arguments evaluated now
+		c := x.Call
+		if c.IsInvoke() {
+			panic(engineErr("defer of an interface method"))
+		}
+		fv, ok := w.get(st, f, c.Value).(FuncV)
+		if !ok || fv.fn == nil {
+			panic(engineErr("defer of something that is not a function"))
+		}
+		d := deferred{fn: fv.fn, bindings: fv.bindings}
+		for _, a := range c.Args {
+			d.args = append(d.args, w.get(st, f, a))
+		}
+		f.defers = append(append([]deferred{}, f.defers...), d)
+	case *ssa.RunDefers:
+		ds := f.defers
+		f.defers = nil
+		for i := len(ds) - 1; i >= 0; i-- {
+			if len(ds[i].fn.Blocks) == 0 {
+				panic(engineErr("deferred call of an external function"))
+			}
+			w.callSync(st, ds[i].fn, ds[i].args, ds[i].bindings...)
+		}
+	case *ssa.Go, *ssa.Select, *ssa.Send, *ssa.MakeChan:
 		panic(engineErr(fmt.Sprintf("unsupported instruction %T", ins)))
 	default:
 		panic(engineErr(fmt.Sprintf("unsupported instruction %T: %v", ins, ins)))
@@ -1351,7 +1377,10 @@ func (w *Worker) convert(st *State, x *ssa.Convert, v Value) Value {
 			fb := from.(*types.Basic)
 			_, signed := intWidth(fb)
 			if !signed && t.Sort == SBV64 {
-				panic(engineErr("uint64->float"))
+				if x, ok := t.bvVal(); ok {
+					return mkFP(float64(x))
+				}
+				return Term{S: "((_ to_fp_unsigned 11 53) RNE " + t.S + ")", Sort: SFP, Syms: t.Syms}
 			}
 			return int64ToFP(bvResize(t, 64, signed))
 		case tt.Info()&types.IsInteger != 0:
@@ -1697,7 +1726,11 @@ func (w *Worker) rangeOp(st *State, f *Frame, x *ssa.Range) {
 		} else if w.job.Opts.AllPerms || gCfg.AllPerms {
 			orders = permutations(n)
 		} else {
-			for r := 0; r < n; r++ {
+			step := 1
+			if k := w.job.Opts.MapOrders; k > 0 && k < n {
+				step = (n + k - 1) / k
+			}
+			for r := 0; r < n; r += step {
 				o := make([]int, n)
 				for i := range o {
 					o[i] = (r + i) % n
@@ -1928,6 +1961,24 @@ func (w *Worker) builtin(st *State, f *Frame, x *ssa.Call, b *ssa.Builtin) {
 		f.env[x] = mkBV(uint64(n), 64)
 	case "delete":
 		w.mapDelete(st, w.get(st, f, args[0]).(MapV), w.get(st, f, args[1]))
+	case "clear":
+		switch c := w.get(st, f, args[0]).(type) {
+		case MapV:
+			if c.id != 0 {
+				st.heap[c.id] = &MapObj{}
+			}
+		case SliceV:
+			if c.id != 0 {
+				arr := append(ArrayV{}, st.heap[c.id].(ArrayV)...)
+				z := zero(args[0].Type().Underlying().(*types.Slice).Elem())
+				for i := 0; i < c.n; i++ {
+					arr[c.off+i] = z
+				}
+				st.heap[c.id] = arr
+			}
+		default:
+			panic(engineErr("builtin clear on an unexpected value"))
+		}
 	case "min", "max":
 		acc, ok := w.get(st, f, args[0]).(Term)
 		if !ok || acc.Sort == SFP || acc.Sort == SBool {
